@@ -69,11 +69,14 @@ var ruleEarlyExit = &Rule{
 					if !ok {
 						continue
 					}
-					bo, ok := iff.Cond.(*ssa.BinOp)
-					if !ok || bo.Op != token.EQL || bo.X != ssa.Value(coll) || !isNilConst(bo.Y) || pr.Succs[0] != cur {
-						continue
+					// the edge taken implies a nil collector (the test may be a
+					// named predicate: existenceOnly(next, found))
+					switch {
+					case pr.Succs[0] == cur && impliesNilCollector(iff.Cond, coll):
+						test, other = pr, pr.Succs[1]
+					case pr.Succs[1] == cur && func() bool { t, u := collTruth(iff.Cond, coll, false, nil, 0); return u && t == triTrue }():
+						test, other = pr, pr.Succs[0]
 					}
-					test, other = pr, pr.Succs[1]
 				}
 				if test == nil {
 					continue // an unconditional success, not a shortcut
@@ -83,7 +86,7 @@ var ruleEarlyExit = &Rule{
 				for _, b2 := range fn.Blocks {
 					for _, ins := range b2.Instrs {
 						c, ok := ins.(*ssa.Call)
-						if !ok || !(b2 == b || b2.Dominates(b)) {
+						if !ok || !(b2 == b || b2.Dominates(b)) || tinyPredicate(c.Call.StaticCallee()) {
 							continue
 						}
 						for _, a := range c.Call.Args {
@@ -131,8 +134,8 @@ func (p *Prog) twinProduces(fn *ssa.Function, start, from *ssa.BasicBlock, coll 
 	budget := 3000
 	produces := func(ins ssa.Instruction) bool {
 		c, ok := ins.(*ssa.Call)
-		if !ok {
-			return false
+		if !ok || tinyPredicate(c.Call.StaticCallee()) {
+			return false // a named test of the collector hands nothing on
 		}
 		for _, a := range c.Call.Args {
 			if a == ssa.Value(coll) {
@@ -233,13 +236,12 @@ func (p *Prog) twinProduces(fn *ssa.Function, start, from *ssa.BasicBlock, coll 
 						}
 					}
 				}
-				// found == nil is false on the twin path
-				if bo, ok := c.(*ssa.BinOp); ok && bo.X == ssa.Value(coll) && isNilConst(bo.Y) {
-					if bo.Op == token.EQL {
-						t = false
-					} else if bo.Op == token.NEQ {
-						e = false
-					}
+				// the collector is not nil on the twin path
+				switch tv, _ := collTruth(x.Cond, coll, false, func(v ssa.Value) ssa.Value { return resolve(v, nenv) }, 0); tv {
+				case triTrue:
+					e = false
+				case triFalse:
+					t = false
 				}
 				for si, s := range b.Succs {
 					if (si == 0 && !t) || (si == 1 && !e) {
